@@ -124,21 +124,20 @@ theorem ref_power_invariant (c : Cfg ℝ) (pref prefTotal : ℝ) :
 /-! ### saturation -/
 
 /-- the reduction is never positive: design only ever lowers a target -/
-theorem saturation_only_reduces (c : Cfg ℝ) (prefTotal : ℝ) (a : AmpIn ℝ) (g pt dp : ℝ) :
-    powerReduction c prefTotal a g pt dp ≤ 0 := by
+theorem saturation_only_reduces (c : Cfg ℝ) (prefTotal prevDp prevVoa : ℝ) (a : AmpIn ℝ) (g pt dp : ℝ) :
+    powerReduction c prefTotal prevDp prevVoa a g pt dp ≤ 0 := by
   unfold powerReduction
   split_ifs <;> simp only [pmin_eq, Nat.cast_zero] <;> first | exact min_le_right _ _ | exact min_le_left _ _
 
-/-- **imposed amplifier model, both modes: total design power never exceeds p_max, and the offset is reduced only as
-needed** — no reduction when it fits, and exactly to `p_max` when it does not (`dp` is the offset of the amplifier
-output: in gain mode it is derived from the operator's gain, input VOA included) -/
-theorem saturation_minimal (c : Cfg ℝ) (prefTotal : ℝ) (a : AmpIn ℝ) (g pt dp : ℝ)
-    (hv : (a.user.variety == "") = false) :
-    prefTotal + (dp + powerReduction c prefTotal a g pt dp) ≤ a.sel.pMax ∧
-    (prefTotal + dp ≤ a.sel.pMax → powerReduction c prefTotal a g pt dp = 0) ∧
+/-- **power mode, imposed amplifier model: total design power never exceeds p_max, and the offset is reduced only as
+needed** — no reduction when it fits, and exactly to `p_max` when it does not -/
+theorem saturation_minimal (c : Cfg ℝ) (prefTotal prevDp prevVoa : ℝ) (a : AmpIn ℝ) (g pt dp : ℝ)
+    (hv : (a.user.variety == "") = false) (hm : c.powerMode = true) :
+    prefTotal + (dp + powerReduction c prefTotal prevDp prevVoa a g pt dp) ≤ a.sel.pMax ∧
+    (prefTotal + dp ≤ a.sel.pMax → powerReduction c prefTotal prevDp prevVoa a g pt dp = 0) ∧
     (a.sel.pMax < prefTotal + dp →
-      prefTotal + (dp + powerReduction c prefTotal a g pt dp) = a.sel.pMax) := by
-  simp only [powerReduction, hv, pmin_eq, Nat.cast_zero, Bool.false_eq_true, if_false]
+      prefTotal + (dp + powerReduction c prefTotal prevDp prevVoa a g pt dp) = a.sel.pMax) := by
+  simp only [powerReduction, hv, hm, pmin_eq, Nat.cast_zero, Bool.false_eq_true, if_false, if_true]
   refine ⟨?_, ?_, ?_⟩
   · rcases le_total 0 (a.sel.pMax - (prefTotal + dp)) with h | h
     · rw [min_eq_left h]; linarith
@@ -146,28 +145,73 @@ theorem saturation_minimal (c : Cfg ℝ) (prefTotal : ℝ) (a : AmpIn ℝ) (g pt
   · intro h; exact min_eq_left (by linarith)
   · intro h; rw [min_eq_right (by linarith)]; ring
 
-/-- gain mode, imposed model, operator-set gain `g`: the gain is reduced only when the output it gives — input power
-`pref_total + prev_dp − prev_voa − node_loss − in_voa` plus `g` — exceeds p_max -/
-theorem saturation_minimal_gain_mode (c : Cfg ℝ) (pref prefTotal prevDp prevVoa : ℝ) (a : AmpIn ℝ) (g : ℝ)
+/-- gain mode, imposed model: the operator's gain is reduced only when the output estimated by the code exceeds p_max,
+and then exactly to p_max.  The code's estimate `pout` leaves the input VOA out; with `in_voa = 0` it is the real
+output, hence the full statement holds there (`saturation_minimal_gain_mode_no_in_voa`); with `in_voa ≠ 0` the
+reduction is `in_voa` dB too large (`gain_mode_in_voa_over_reduction_fails_current`). -/
+theorem saturation_minimal_gain_mode (c : Cfg ℝ) (prefTotal prevDp prevVoa : ℝ) (a : AmpIn ℝ) (g pt dp : ℝ)
+    (hv : (a.user.variety == "") = false) (hm : c.powerMode = false) :
+    let pout := prefTotal + prevDp - a.nodeLoss - prevVoa + g
+    pout + powerReduction c prefTotal prevDp prevVoa a g pt dp ≤ a.sel.pMax ∧
+    (pout ≤ a.sel.pMax → powerReduction c prefTotal prevDp prevVoa a g pt dp = 0) ∧
+    (a.sel.pMax < pout → pout + powerReduction c prefTotal prevDp prevVoa a g pt dp = a.sel.pMax) := by
+  simp only [powerReduction, hv, hm, pmin_eq, Nat.cast_zero, Bool.false_eq_true, if_false]
+  refine ⟨?_, ?_, ?_⟩
+  · rcases le_total 0 (a.sel.pMax - (prefTotal + prevDp - a.nodeLoss - prevVoa + g)) with h | h
+    · rw [min_eq_left h]; linarith
+    · rw [min_eq_right h]; linarith
+  · intro h; exact min_eq_left (by linarith)
+  · intro h; rw [min_eq_right (by linarith)]; ring
+
+/-- gain mode, operator gain `g`, no input VOA: the design output `pref_total + _delta_p` never exceeds p_max and the
+operator's gain is kept whenever the output it gives fits -/
+theorem saturation_minimal_gain_mode_no_in_voa (c : Cfg ℝ) (pref prefTotal prevDp prevVoa : ℝ) (a : AmpIn ℝ) (g : ℝ)
     (hv : (a.user.variety == "") = false) (hm : c.powerMode = false) (hg : a.user.gain = some g)
-    (hfit : prefTotal + prevDp - prevVoa - a.nodeLoss - a.user.inVoa.getD 0 + g ≤ a.sel.pMax) :
-    (ampStep c pref prefTotal prevDp prevVoa a).reduction = 0 ∧
-    (ampStep c pref prefTotal prevDp prevVoa a).gain = g := by
-  have hr : (ampStep c pref prefTotal prevDp prevVoa a).reduction = 0 := by
-    simp only [ampStep, computeTargets, hm, hg, truthy_eq]
-    exact (saturation_minimal c prefTotal a _ _ _ hv).2.1 (by linarith)
-  refine ⟨hr, ?_⟩
-  simp only [ampStep, computeTargets, hm, hg] at hr ⊢
-  simp at hr ⊢
-  rw [hr]
+    (hiv : a.user.inVoa.getD 0 = 0) :
+    prefTotal + (ampStep c pref prefTotal prevDp prevVoa a).dpInt ≤ a.sel.pMax ∧
+    (prefTotal + prevDp - prevVoa - a.nodeLoss + g ≤ a.sel.pMax →
+      (ampStep c pref prefTotal prevDp prevVoa a).gain = g) := by
+  have h := saturation_minimal_gain_mode c prefTotal prevDp prevVoa a g
+    (prefTotal + (prevDp - a.nodeLoss - prevVoa + g - a.user.inVoa.getD 0))
+    (prevDp - a.nodeLoss - prevVoa + g - a.user.inVoa.getD 0) hv hm
+  simp only at h
+  obtain ⟨h1, h2, _⟩ := h
+  constructor
+  · simp only [ampStep, computeTargets, hm, hg, truthy_eq, hiv] at h1 ⊢
+    simp at h1 ⊢
+    linarith
+  · intro hfit
+    have hz := h2 (by linarith)
+    simp only [ampStep, computeTargets, hm, hg, truthy_eq] at hz ⊢
+    simp at hz ⊢
+    rw [hz]
+
+/-- **Current code, open finding gain-mode-in-voa-saturation:** gain mode, operator model with p_max 23, operator gain
+30 dB, `in_voa = 1`: input −1 dBm total → the gain is cut to 24 dB and the amplifier delivers 22 dBm, 1 dB (= in_voa)
+below what p_max allows -/
+theorem gain_mode_in_voa_over_reduction_fails_current :
+    ∃ (c : Cfg ℝ) (pref prefTotal prevDp prevVoa : ℝ) (a : AmpIn ℝ),
+      c.powerMode = false ∧ (a.user.variety == "") = false ∧ a.user.gain = some 30 ∧
+      (ampStep c pref prefTotal prevDp prevVoa a).gain = 24 ∧
+      prefTotal + (ampStep c pref prefTotal prevDp prevVoa a).dpInt = 22 ∧ (22:ℝ) < a.sel.pMax := by
+  refine ⟨{ powerMode := false, dpLo := -2, dpHi := 3, dpStep := 0.5, lossRef := 20, slope := 0.3, voaMargin := 1,
+            voaStep := 0.5, extGain := 2.5 }, 0, 19, -20, 0,
+          { user := { variety := "std_low_gain", gain := some 30, deltaP := none, outVoa := none, inVoa := some 1,
+                      tilt := none },
+            sel := { pMax := 23, gainFlatmax := 16, outVoaAuto := false }, nodeLoss := 0, nextIsRoadm := true,
+            nextLoss := 0 }, rfl, by decide, rfl, ?_, ?_, by norm_num⟩
+  all_goals
+    have hdec : ("std_low_gain" == "") = false := by decide
+    simp only [ampStep, computeTargets, powerReduction, truthy_eq, pmin_eq, pmax_eq, hdec]
+    norm_num
 
 /-- auto-selected model (its p_max / gain_flatmax are inputs, selection is C10): after the reduction the target fits
 the model's power AND its extended gain range, and nothing is reduced when both already fit -/
-theorem saturation_auto_selected (c : Cfg ℝ) (prefTotal : ℝ) (a : AmpIn ℝ) (g pt dp : ℝ)
+theorem saturation_auto_selected (c : Cfg ℝ) (prefTotal prevDp prevVoa : ℝ) (a : AmpIn ℝ) (g pt dp : ℝ)
     (hv : (a.user.variety == "") = true) :
-    pt + powerReduction c prefTotal a g pt dp ≤ a.sel.pMax ∧
-    g + powerReduction c prefTotal a g pt dp ≤ a.sel.gainFlatmax + c.extGain ∧
-    (pt ≤ a.sel.pMax → g ≤ a.sel.gainFlatmax + c.extGain → powerReduction c prefTotal a g pt dp = 0) := by
+    pt + powerReduction c prefTotal prevDp prevVoa a g pt dp ≤ a.sel.pMax ∧
+    g + powerReduction c prefTotal prevDp prevVoa a g pt dp ≤ a.sel.gainFlatmax + c.extGain ∧
+    (pt ≤ a.sel.pMax → g ≤ a.sel.gainFlatmax + c.extGain → powerReduction c prefTotal prevDp prevVoa a g pt dp = 0) := by
   simp only [powerReduction, hv, if_true, pmin_eq, Nat.cast_zero]
   set m := min (pt - g + a.sel.gainFlatmax + c.extGain) a.sel.pMax with hmdef
   have hm1 : m ≤ pt - g + a.sel.gainFlatmax + c.extGain := min_le_left _ _
